@@ -4,8 +4,12 @@
 OUTD="$1"; N="${2:-3}"; mkdir -p "$OUTD"; rm -f "$OUTD"/*.jsonl "$OUTD"/jobs.*
 i=0
 for d in /verif/seeded/C*/; do
-  id=$(basename $d); prop=${id%%-*}; checks="$prop"
-  case "$id" in C11-a3|C11-b3) checks="C11 C17";; C07-c3) checks="C07 C18";; esac
+  id=$(basename $d); prop=${id%%-*}
+  # its own property's check plus every check recorded as catching it
+  checks=$(python3 -c "
+import json,sys
+m=json.load(open('$d/meta.json')); c={m['property']}|{x['check'] for x in m.get('detection',[]) if x.get('exit')==1}
+print(' '.join(sorted(c)))")
   echo "seeded ${d%/} $checks" >> "$OUTD/jobs.$((i % N))"; i=$((i+1))
 done
 for f in /verif/benign/*.diff; do
